@@ -44,14 +44,18 @@ def tagNRB {α : Type} (prov : α → Prov Unit) (c : Conn α) (p : α) (ctx : O
   | .server => ctx == none
   | _ => false
 
-def wellTaggedB {α : Type} (prov : α → Prov Unit) (c : Conn α) : Label α → Bool
-  | .write (.resp r p) _ _ =>
+def wellTaggedWB {α : Type} (prov : α → Prov Unit) (c : Conn α) : Msg α → Option Nat → Bool
+  | .resp r p, _ =>
     match prov p with
     | .resp id _ req post => id == r && req == r && bornIs c r post
     | .initResp id => id == r
     | _ => false
-  | .write (.notif p) ctx _ => tagNRB prov c p ctx
-  | .write (.call p) ctx _ => tagNRB prov c p ctx
+  | .notif p, ctx => tagNRB prov c p ctx
+  | .call p, ctx => tagNRB prov c p ctx
+
+def wellTaggedB {α : Type} (prov : α → Prov Unit) (c : Conn α) : Label α → Bool
+  | .write msg ctx _ => wellTaggedWB prov c msg ctx
+  | .wroute msg ctx _ => wellTaggedWB prov c msg ctx
   | _ => true
 
 theorem tagNR_of_b {α : Type} {prov : α → Prov Unit} {c : Conn α} {p : α} {ctx : Option Nat} (h : tagNRB prov c p ctx = true) :
@@ -66,22 +70,26 @@ theorem tagNR_of_b {α : Type} {prov : α → Prov Unit} {c : Conn α} {p : α} 
   · rename_i hp; rw [hp]; exact Or.inl (by simpa using h)
   · cases h
 
+theorem wellTaggedW_of_b {α : Type} {prov : α → Prov Unit} {c : Conn α} {msg : Msg α} {ctx : Option Nat}
+    (h : wellTaggedWB prov c msg ctx = true) : WellTaggedW prov () c msg ctx := by
+  cases msg with
+  | resp r p =>
+    simp only [wellTaggedWB] at h
+    simp only [WellTaggedW]
+    split at h
+    · rename_i hp; rw [hp]
+      simp only [Bool.and_eq_true, beq_iff_eq] at h
+      exact ⟨h.1.1, h.1.2, by first | rfl | trivial, bornIs_spec h.2⟩
+    · rename_i hp; rw [hp]; simpa using h
+    · cases h
+  | notif p => exact tagNR_of_b h
+  | call p => exact tagNR_of_b h
+
 theorem wellTagged_of_b {α : Type} {prov : α → Prov Unit} {c : Conn α} {l : Label α} (h : wellTaggedB prov c l = true) :
     WellTagged prov () c l := by
   cases l with
-  | write msg ctx ctxNew =>
-    cases msg with
-    | resp r p =>
-      simp only [wellTaggedB] at h
-      simp only [WellTagged]
-      split at h
-      · rename_i hp; rw [hp]
-        simp only [Bool.and_eq_true, beq_iff_eq] at h
-        exact ⟨h.1.1, h.1.2, by first | rfl | trivial, bornIs_spec h.2⟩
-      · rename_i hp; rw [hp]; simpa using h
-      · cases h
-    | notif p => exact tagNR_of_b h
-    | call p => exact tagNR_of_b h
+  | write msg ctx ctxNew => exact wellTaggedW_of_b h
+  | wroute msg ctx ctxNew => exact wellTaggedW_of_b h
   | post _ _ _ _ => trivial
   | cut _ => trivial
   | wfail _ => trivial
@@ -89,6 +97,7 @@ theorem wellTagged_of_b {α : Type} {prov : α → Prov Unit} {c : Conn α} {l :
   | sclose _ _ => trivial
   | «end» => trivial
   | evict _ _ => trivial
+  | wdeliver _ => trivial
 
 def wellTaggedRunB {α : Type} (prov : α → Prov Unit) : Conn α → List (Label α) → Bool
   | _, [] => true
